@@ -364,5 +364,6 @@ pub fn check() -> Check {
             Workload { name: "feedstorm", f: feedstorm_case, quick: 8_000, thorough: 400_000, flav: Flav::Checked },
         ],
         exhaustive: false,
+        aggregate: None,
     }
 }
